@@ -61,6 +61,17 @@ impl SizeManifest {
         // Validate header
         header.validate()?;
 
+        // The entry count comes from the file and sizes both the per-tag bit masks
+        // and the entry vector: reject a count the remaining input cannot hold.
+        let remaining = data.len().saturating_sub(cursor.position() as usize);
+        let entry_size = SizeEntry::serialized_size(&header).max(1);
+        if header.entry_count() as usize > remaining / entry_size {
+            return Err(SizeError::EntryCountMismatch {
+                expected: header.entry_count(),
+                actual: remaining / entry_size,
+            });
+        }
+
         // Parse tags (between header and entries)
         let mut tags = Vec::with_capacity(header.tag_count() as usize);
         for _ in 0..header.tag_count() {
